@@ -101,6 +101,9 @@ func (r *vfRef) resolve(ids []string, depth, max int) {
 		return
 	}
 	for _, id := range ids {
+		if vfIsPublicRef(id) {
+			continue // Public is never dereferenced, wherever it is listed
+		}
 		r.derefs = append(r.derefs, id)
 		switch r.web.kind(id) {
 		case vfRKActor:
@@ -111,16 +114,37 @@ func (r *vfRef) resolve(ids []string, depth, max int) {
 	}
 }
 
+// slices: 0 addressing (all actors stored, Public spellings, up to n3 recipients)
+//         1 resolve (one recipient, full remote web incl. pages, items<=k, depth<=d)
+//         2 mixed (two IRI recipients, stored or not, web without pages, <=1 item)
 func vfC02(slice int) {
 	w := vfNewWorld()
 	web := &vfWeb{w: w, maxItems: vfParam("items", 2), kinds: 8}
-	if vfParam("pages", 1) == 0 {
-		web.kinds = 6
-	}
 	w.remote = web.doc
-	w.maxDeliver = 1 + vfChoose("depth", vfParam("depth", 2))
-	n := vfParam("n", 2)
-	nrec := 1 + vfChoose("nrec", n)
+	n := 1
+	forms := 4
+	switch slice {
+	case 0:
+		n = vfParam("naddr", 3)
+		w.maxDeliver = 1
+	case 1:
+		n = 1
+		forms = 2
+		if vfParam("pages", 1) == 0 {
+			web.kinds = 6
+		}
+		w.maxDeliver = 1 + vfChoose("depth", vfParam("depth", 2))
+	case 2:
+		n = 2
+		forms = 1
+		web.kinds = 6
+		web.maxItems = 1
+		w.maxDeliver = 1 + vfChoose("depth", 2)
+	}
+	nrec := n
+	if slice == 0 {
+		nrec = 1 + vfChoose("nrec", n)
+	}
 	// the activity: a Like (no social normalisation), recipients spread over the five properties
 	a := vfActivity("Like", 1, 1, 0, "")
 	props := []string{"to", "bto", "cc", "bcc", "audience"}
@@ -132,11 +156,12 @@ func vfC02(slice int) {
 		id   string
 	}
 	var recs []rec
+	rot := vfChoose("prop", len(props))
 	for i := 0; i < nrec; i++ {
-		p := vfChoose("prop", len(props))
+		p := (rot + i*2) % len(props) // recipients spread over the five properties by rotation
 		var val interface{}
 		var id string
-		switch vfChoose("form", 4) {
+		switch vfChoose("form", forms) {
 		case 0:
 			id = vfIRI("rcpt")
 			val = id
@@ -164,7 +189,15 @@ func vfC02(slice int) {
 		}
 	}
 	// stored inboxes: a function of the actor id; consistent with the actor's own document
-	hasStored := func(actor string) bool { return vfUFBool("hasStoredInbox", actor) }
+	hasStored := func(actor string) bool {
+		if slice == 0 {
+			return true
+		}
+		if slice == 1 {
+			return false
+		}
+		return vfUFBool("hasStoredInbox", actor)
+	}
 	w.storedInbox = func(actor string) *url.URL {
 		if hasStored(actor) {
 			u, _ := url.Parse(web.inbox(actor))
@@ -247,4 +280,6 @@ func vfC02(slice int) {
 	vfCover("end")
 }
 
-func VfC02_Deliver() { vfC02(0) }
+func VfC02_Addressing() { vfC02(0) }
+func VfC02_Resolve()    { vfC02(1) }
+func VfC02_Mixed()      { vfC02(2) }
